@@ -131,6 +131,11 @@ def run_static(name):
     return SS.run(name)
 
 
+def run_data(name):
+    import data_pre as DP
+    return DP.run(name)
+
+
 def replay(path):
     """re-execute a stored violation / finding against /repo's current tree"""
     rp = json.load(open(path))
